@@ -297,6 +297,17 @@ func c09Jobs(tier string) []*Job {
 			jobs = append(jobs, &Job{Kind: "c09cuts", Scenario: sc, BudgetS: per, Args: args})
 		}
 	}
+	// one validator silent from the start AND its predecessor cut off for a while: after the heal the rejoining node's
+	// recovery request must be answered although the first node of its responder window is the silent one
+	for sl := 0; sl < 4; sl++ {
+		cutN := (sl + 3) % 4
+		sc := c09Scen(fmt.Sprintf("C09-silent%d-cut%d-N4", sl, cutN), 4, withKind(sl, kSilent), withHeights(1), withK(0), withHorizon(40))
+		sc.CutSet = []int{cutN}
+		if tier == "thorough" {
+			sc.K = 1
+		}
+		jobs = append(jobs, &Job{Kind: "c09cuts", Scenario: sc, BudgetS: per, Args: map[string]int{"stride": 1}})
+	}
 	for r := 0; r < 4; r++ {
 		for _, a := range []int64{-1, 0} {
 			sc := c09Scen(fmt.Sprintf("C09-restart%d-N4-%s", r, amevName(a)), 4, withAMEV(a), withHeights(1), withK(0), withKind(r, kAmnesia), withHorizon(24))
